@@ -66,7 +66,7 @@ def histories(tier, rng):
         n_prefix = len(msgs)
         with_delete = rng.random() < 0.85
         if with_delete:
-            msgs.append(to_text(ro_delete(60)))
+            msgs.append(to_text(ro_delete(60, ro_id=rng.choice(['RO1', 'RO1', 'RO1-OLD', 'ro1', None]))))
         cs, ci = gens.state_ids(state)
         msgs += one_of_each(cs, ci, rng, 100)
         yield {'ro': ro, 'msgs': msgs, 'n_prefix': n_prefix, 'with_delete': with_delete}
